@@ -48,6 +48,10 @@ type C13Case struct {
 	// point of publishing, then through publishing to its end)
 	Sched []int `json:"sched,omitempty"`
 	Root  bool  `json:"root,omitempty"` // the server has the documents' folder as workspace; every step is on main.journal
+	// SwitchAt > 0 (mode publish, one document): the server starts with features.diagnostics off; the
+	// setting is switched on (settings pushed with didChangeConfiguration) before step SwitchAt is sent.
+	// The versions before it are answered with an empty list, which must not be the final word either.
+	SwitchAt int `json:"switch_at,omitempty"`
 }
 
 var c13URIs []string
@@ -276,7 +280,11 @@ func c13Check(c *C13Case) (ds []ev.Discrepancy, nontrivial bool) {
 	if c.Root {
 		srvOpts.RootDir = c13Dir
 	}
-	h, err := lspx.New(srvOpts)
+	offOpts := srvOpts
+	if c.SwitchAt > 0 {
+		offOpts.InitOptions = map[string]any{"features": map[string]any{"diagnostics": false}}
+	}
+	h, err := lspx.New(offOpts)
 	if err != nil {
 		return []ev.Discrepancy{ev.D("c13.harness", "%v", err)}, false
 	}
@@ -301,6 +309,9 @@ func c13Check(c *C13Case) (ds []ev.Discrepancy, nontrivial bool) {
 			return []ev.Discrepancy{ev.D("c13.harness", "%v", err)}, false
 		}
 		wantKey[i] = diagKey(d)
+		if c.SwitchAt > 0 && i < c.SwitchAt {
+			wantKey[i] = diagKey(nil) // answered while the feature was off
+		}
 	}
 	sgate.mu.Lock()
 	sgate.active = false
@@ -406,6 +417,13 @@ func c13Check(c *C13Case) (ds []ev.Discrepancy, nontrivial bool) {
 	// the burst, issued without waiting
 	for i, st := range c.Steps {
 		uri := c13URIs[st.Doc]
+		if c.SwitchAt > 0 && i == c.SwitchAt {
+			// the analyses under way have looked at the setting (they stand at their publication, or
+			// wait for the one that does); now it changes
+			waitUntil(func() bool { return len(h.C.Parked()) > 0 }, 300*time.Millisecond)
+			time.Sleep(2 * time.Millisecond)
+			_ = h.PushConfiguration(map[string]any{"features": map[string]any{"diagnostics": true}})
+		}
 		if !opened[st.Doc] {
 			_ = h.Open(uri, texts[i])
 			opened[st.Doc] = true
@@ -551,7 +569,7 @@ func c13Run(c *C13Case) []ev.Discrepancy {
 	for _, st := range c.Steps {
 		rep = rep || st.Rev > 0
 	}
-	recC13.Case(nt, mustJSON(c), "mode:"+c.Mode, fmt.Sprintf("burst:%d", len(c.Steps)), fmt.Sprintf("settled-before:%v", c.Pre), fmt.Sprintf("repeated-diagnostics:%v", rep))
+	recC13.Case(nt, mustJSON(c), "mode:"+c.Mode, fmt.Sprintf("burst:%d", len(c.Steps)), fmt.Sprintf("settled-before:%v", c.Pre), fmt.Sprintf("repeated-diagnostics:%v", rep), fmt.Sprintf("feature-switched-on-inside-burst:%v", c.SwitchAt > 0))
 	if nt && recC13.WantSample() {
 		recC13.Sample(c)
 	}
@@ -614,6 +632,14 @@ func TestC13Rand(t *testing.T) {
 		steps := genC13Steps(t, n)
 		perm := rapid.Permutation(seq(n)).Draw(t, "perm")
 		c := &C13Case{Steps: steps, Perm: perm, Mode: rapid.SampledFrom([]string{"start", "publish", "computed"}).Draw(t, "mode"), Pre: rapid.Bool().Draw(t, "pre")}
+		if rapid.IntRange(0, 3).Draw(t, "switch") == 0 {
+			// one document, publications parked, the diagnostics feature switched on inside the burst
+			for i := range c.Steps {
+				c.Steps[i].Doc = 0
+			}
+			c.Mode, c.Pre = "publish", false
+			c.SwitchAt = rapid.IntRange(1, n-1).Draw(t, "switchat")
+		}
 		report(t, recC13, "c13", c, c13Run(c))
 	})
 }
